@@ -15,15 +15,16 @@ import (
 )
 
 type c13Case struct {
-	Stack     StackCfg `json:"stack"`
-	ArriveNs  int64    `json:"arrive_ns"`
-	HasCancel bool     `json:"has_cancel"`
-	CancelNs  int64    `json:"cancel_ns"` // absolute virtual offset (may be <= ArriveNs: already cancelled)
-	HasRel    bool     `json:"has_release"`
-	RelNs     int64    `json:"release_ns"`
-	Outcome   int      `json:"outcome"`
-	Free      bool     `json:"free"`            // capacity is free from the start (nobody holds the token)
-	Rival     bool     `json:"rival,omitempty"` // a second caller arrives at the same instant (no cancellation in these cases)
+	Stack       StackCfg `json:"stack"`
+	ArriveNs    int64    `json:"arrive_ns"`
+	HasCancel   bool     `json:"has_cancel"`
+	CancelNs    int64    `json:"cancel_ns"` // absolute virtual offset (may be <= ArriveNs: already cancelled)
+	HasRel      bool     `json:"has_release"`
+	RelNs       int64    `json:"release_ns"`
+	Outcome     int      `json:"outcome"`
+	Free        bool     `json:"free"`                   // capacity is free from the start (nobody holds the token)
+	CtxDeadline bool     `json:"ctx_deadline,omitempty"` // has_cancel: the context is not cancelled by hand, it carries a deadline at cancel_ns (context.WithDeadline)
+	Rival       bool     `json:"rival,omitempty"`        // a second caller arrives at the same instant (no cancellation in these cases)
 }
 
 func genC13(t *rapid.T) c13Case {
@@ -75,6 +76,7 @@ func genC13(t *rapid.T) c13Case {
 	c.HasCancel = rapid.IntRange(0, 2).Draw(t, "hasCancel") > 0
 	if c.HasCancel {
 		c.CancelNs = pick("cancel")
+		c.CtxDeadline = rapid.IntRange(0, 2).Draw(t, "ctxDeadline") == 0
 	}
 	c.HasRel = rapid.IntRange(0, 2).Draw(t, "hasRel") == 0
 	if c.HasRel {
@@ -111,7 +113,12 @@ func runC13InBubble(c c13Case) (out kit.Outcome) {
 		}
 		holder = &vtCaller{L: l, OK: true, Done: true}
 	}
-	caller := w.newCaller("a", 0, 0)
+	var caller *vtCaller
+	if c.HasCancel && c.CtxDeadline {
+		caller = w.newCallerDeadline("a", t0.Add(time.Duration(c.CancelNs)))
+	} else {
+		caller = w.newCaller("a", 0, 0)
+	}
 	var rival *vtCaller
 	if c.Rival {
 		rival = w.newCaller("a", 0, 0)
@@ -143,7 +150,9 @@ func runC13InBubble(c c13Case) (out kit.Outcome) {
 		}
 		switch e.kind {
 		case 0:
-			caller.cancel()
+			if !c.CtxDeadline {
+				caller.cancel()
+			} // else: the context's own deadline fires at this instant
 		case 1:
 			complete(holder.L, c.Outcome)
 			released = true
@@ -337,6 +346,9 @@ func runC13InBubble(c c13Case) (out kit.Outcome) {
 	}
 	if c.Stack.DeadlineFar > 0 {
 		out.Labels = append(out.Labels, "deadline-far-future")
+	}
+	if c.HasCancel && c.CtxDeadline {
+		out.Labels = append(out.Labels, "context-with-deadline")
 	}
 	if kind == "deadline" && A >= D {
 		out.Labels = append(out.Labels, "at-or-after-deadline")
